@@ -230,17 +230,48 @@ func handleInsertColumnNames(p *InsertPlan) error {
 }
 
 // removeInsertColumnQualifiers removes the database and table qualifiers of the
-// column list, the SET columns and the ON DUPLICATE KEY UPDATE columns.
+// column list, the SET columns and the ON DUPLICATE KEY UPDATE columns, and those
+// of the column names in the inserted and assigned values.
 func removeInsertColumnQualifiers(p *InsertPlan) {
+	remover := &columnQualifierRemover{}
 	for _, col := range p.stmt.Columns {
 		removeSchemaAndTableInfoInColumnName(col)
 	}
+	for _, values := range p.stmt.Lists {
+		for _, value := range values {
+			value.Accept(remover)
+		}
+	}
 	for _, assignment := range p.stmt.Setlist {
 		removeSchemaAndTableInfoInColumnName(assignment.Column)
+		if assignment.Expr != nil {
+			assignment.Expr.Accept(remover)
+		}
 	}
 	for _, assignment := range p.stmt.OnDuplicate {
 		removeSchemaAndTableInfoInColumnName(assignment.Column)
+		if assignment.Expr != nil {
+			assignment.Expr.Accept(remover)
+		}
 	}
+}
+
+// columnQualifierRemover removes the database and table qualifiers of the column names of an expression of a
+// statement that names one table only; the columns of a sub query are left alone.
+type columnQualifierRemover struct{}
+
+// Enter implement ast.Visitor
+func (r *columnQualifierRemover) Enter(n ast.Node) (node ast.Node, skipChildren bool) {
+	_, isSubquery := n.(*ast.SubqueryExpr)
+	return n, isSubquery
+}
+
+// Leave implement ast.Visitor
+func (r *columnQualifierRemover) Leave(n ast.Node) (node ast.Node, ok bool) {
+	if column, isColumn := n.(*ast.ColumnName); isColumn {
+		removeSchemaAndTableInfoInColumnName(column)
+	}
+	return n, true
 }
 
 // 只有一个表, 直接去掉DB名和表名, 就不需要加装饰器了
